@@ -169,6 +169,22 @@ class Srv:
                 self.edge_simple(h, "schedule×Init(follower)", ent, ex, must=[("set_state", "AwaitingValidation")], never=["reply_ok", "reply_err", "reply"], no_break=True)
                 ent, ex = h.arm("ValidateRequested", sw)
                 self.edge_validated(h, "schedule×ValidateRequested", ent, ex, ("ValidateError", "ScheduleError"))
+            # the per-peer queues exist before this party tells anybody (scheduler, peers, itself) that the
+            # policy is accepted: peers start sending MPC messages as soon as *they* are told to run, which
+            # can be before this party handles its own Run
+            k, b = h.user
+            inits = h.evs(K("init_channel"))
+            outward = [e for e in h.evs(lambda e: (e.kind == "set_state" and not (e.detail or "").startswith("restore")) or e.kind in ("client", "reply_ok", "self_cmd"))]
+            late = [e for e in outward if not any(b.dominates(i.block, e.block) for i in inits)]
+            if not inits:
+                res.bad("R9.queues-first", "schedule|init_channel", "schedule does not create the per-peer message queues: a peer that starts its MPC before this party handles Run gets UnknownSender for its first messages", fl(b.span))
+            elif late:
+                res.bad("R9.queues-first", "schedule|init_channel", "%s(%s) can happen before the per-peer message queues exist" % (late[0].kind, late[0].detail or ""), fl(late[0].sp))
+            else:
+                res.ok("R9.queues-first", "schedule|init_channel", fl(inits[0].sp), "init_channel dominates all %d accepting effects of schedule (state changes, RPCs, Ok reply, self command)" % len(outward))
+        other = [(name, e) for name, hh in self.hs.items() if name not in ("schedule", "init_channel") and hh.user for e in hh.evs(K("init_channel"))]
+        for name, e in other:
+            res.bad("R9.queues-first", "%s|init_channel" % name, "the message queues are (re)created in %s: messages that peers already delivered are lost / rejected" % name, fl(e.sp))
         h = self.h("validate")
         if h:
             ent, ex = h.arm("Init")
